@@ -22,6 +22,7 @@ LEVEL_TEXT = (
     "smoothing means at every output time; the Jacobian M of the sample w.r.t. the table of draws (exact, the map is affine) must satisfy "
     "M M^T = joint smoothing covariance (rebuilt from the returned backward factorisation in 50 digits; for priors: the exact IWP joint "
     "law); every draw label is used exactly once (no key reuse, also across batched samples); sample shapes are prepended."
+    ' Sample shapes include non-palindromic ones ((2,3), (3,1), (1,2,3)), which must be prepended in order.'
 )
 LEVEL_NOTE = "Trusted: harness-side patching of probdiffeq.backend.random.{split,normal} (64-bit hashed labels: any split width is supported); jax.jacfwd of an affine map; mpmath recomposition of the joint law. Gram comparison entrywise at max(1e-6, 64 eps x sum of |terms| of the backward chain), entries whose bound exceeds 1e-3 are not compared (counted)."
 RULE = (
